@@ -700,6 +700,11 @@ func (w *world) exec(line string) {
 			}
 		}()
 		ctx := context.Background()
+		if kv["ctx"] == "done" {
+			c, cancel := context.WithCancel(ctx)
+			cancel()
+			ctx = c
+		}
 		switch f[0] {
 		case "fac":
 			p := appencryption.NewCryptoPolicy()
@@ -912,6 +917,16 @@ func (g *gen) newSession(f int) {
 	g.nSess++
 }
 
+// ctxOpt: one operation in six is called with a context that is already cancelled.  The SDK only
+// passes the context on to the metastore and the KMS (the spies here ignore it), so results, calls,
+// secrets and wiped buffers must be exactly those of a live context.
+func (g *gen) ctxOpt() string {
+	if g.rng.Intn(6) == 0 {
+		return " ctx=done"
+	}
+	return ""
+}
+
 func (g *gen) faults() string {
 	r := g.rng
 	if g.noFaults || r.Intn(6) != 0 {
@@ -949,9 +964,9 @@ func (g *gen) randomCase(length int) {
 		switch r.Pick(34, 30, 12, 6, 5, 4, 3, 3, 3) {
 		case 0:
 			if r.Intn(5) == 0 {
-				g.line("enc %d %d flt=%s api=store", s, r.Intn(1000), g.faults())
+				g.line("enc %d %d flt=%s api=store%s", s, r.Intn(1000), g.faults(), g.ctxOpt())
 			} else {
-				g.line("enc %d %d flt=%s", s, r.Intn(1000), g.faults())
+				g.line("enc %d %d flt=%s%s", s, r.Intn(1000), g.faults(), g.ctxOpt())
 			}
 		case 1:
 			if len(g.w.drrs) == 0 {
@@ -968,9 +983,9 @@ func (g *gen) randomCase(length int) {
 				mut = g.mutation(n)
 			}
 			if r.Intn(5) == 0 {
-				g.line("dec %d %d flt=%s mut=%s api=load", s, n, g.faults(), mut)
+				g.line("dec %d %d flt=%s mut=%s api=load%s", s, n, g.faults(), mut, g.ctxOpt())
 			} else {
-				g.line("dec %d %d flt=%s mut=%s", s, n, g.faults(), mut)
+				g.line("dec %d %d flt=%s mut=%s%s", s, n, g.faults(), mut, g.ctxOpt())
 			}
 		case 2:
 			g.line("adv %d", g.advance(f))
